@@ -97,7 +97,52 @@ func (fv *FV) heapGet(st *State, key string, elemSort string, goT types.Type) Va
 	return v
 }
 
+// guardCheck: lock-discipline obligation (C12) for an access to a guarded field
+// in a function whose contract opts in (props C12): a write needs the write
+// lock, a read the read or write lock - unless the object is fresh (not yet
+// shared) or, for owner-read fields, the function runs on the owner goroutine.
+func (fv *FV) guardCheck(st *State, ref string, owner *types.Named, f *types.Var, write bool) {
+	if fv.pure > 0 || fv.contract == nil || fv.contract.IsLemma || !hasProp(fv.contract, "C12") {
+		return
+	}
+	g := fv.w.guards[fieldKey(owner, f)]
+	if g == nil {
+		return
+	}
+	stt, _ := owner.Underlying().(*types.Struct)
+	if stt == nil {
+		return
+	}
+	var mf *types.Var
+	for i := 0; i < stt.NumFields(); i++ {
+		if stt.Field(i).Name() == g.Mutex {
+			mf = stt.Field(i)
+		}
+	}
+	if mf == nil {
+		fv.unsupported("guard: no mutex field %s in %s", g.Mutex, owner.Obj().Name())
+	}
+	mx := fv.heapGet(st, fieldKey(owner, mf), "Int", mf.Type())
+	held := fmt.Sprintf("(select %s %s)", mx.T, ref)
+	fresh := fmt.Sprintf("(> %s alloc0)", ref)
+	if write {
+		fv.oblige(st, "perm.w", f.Name(), fmt.Sprintf("(or %s (= %s 2))", fresh, held), "write to "+owner.Obj().Name()+"."+f.Name()+" holds "+g.Mutex+" for writing", token.NoPos)
+		fv.obls[len(fv.obls)-1].Props = []string{"C12"}
+		return
+	}
+	if g.OwnerReads {
+		// the queue-owner goroutine is the only writer: it may read without the lock
+		ow := fv.ghostGet(st, "owner")
+		fv.oblige(st, "perm.r", f.Name(), fmt.Sprintf("(or %s (>= %s 1) (= %s 1))", fresh, held, ow.T), "read of "+owner.Obj().Name()+"."+f.Name()+" holds "+g.Mutex+" or runs on the queue-owner goroutine", token.NoPos)
+		fv.obls[len(fv.obls)-1].Props = []string{"C12"}
+		return
+	}
+	fv.oblige(st, "perm.r", f.Name(), fmt.Sprintf("(or %s (>= %s 1))", fresh, held), "read of "+owner.Obj().Name()+"."+f.Name()+" holds "+g.Mutex, token.NoPos)
+	fv.obls[len(fv.obls)-1].Props = []string{"C12"}
+}
+
 func (fv *FV) readField(st *State, ref string, owner *types.Named, f *types.Var) Val {
+	fv.guardCheck(st, ref, owner, f, false)
 	es := fv.sess.sortOf(f.Type())
 	h := fv.heapGet(st, fieldKey(owner, f), es, f.Type())
 	v := Val{T: fmt.Sprintf("(select %s %s)", h.T, ref), S: es, Go: f.Type()}
@@ -111,6 +156,7 @@ func (fv *FV) readField(st *State, ref string, owner *types.Named, f *types.Var)
 }
 
 func (fv *FV) writeField(st *State, ref string, owner *types.Named, f *types.Var, v Val) {
+	fv.guardCheck(st, ref, owner, f, true)
 	es := fv.sess.sortOf(f.Type())
 	key := fieldKey(owner, f)
 	h := fv.heapGet(st, key, es, f.Type())
